@@ -86,6 +86,12 @@ impl Scenario for TxSim {
     fn rule(&self) -> &'static str {
         "sender alone: seeded histories of encap/encap_ext/encap_frag calls of every succeeding and failing class (sizes 0..=70000, protocol types 0..=0xFFFF, zero/explicit re-use labels, wild contexts), configuration calls and resets; non-trivial = C09: >=1 failing call followed by the twin battery; C11: >=1 continuation call checked; C15: >=2 start/complete packets emitted; C18: >=1 preview compared; C13: constructor sweep chunk; distinct = distinct program hashes"
     }
+    fn expected_probes(&self, target: &str) -> &'static [&'static str] {
+        match target {
+            "C18" => &["c18.encap.ok_complete", "c18.encap.ok_first", "c18.encap.err_size_buffer", "c18.encap.err_pdu_length", "c18.encap.err_protocol_type", "c18.encap.err_invalid_label", "c18.encap_frag.ok_end", "c18.encap_frag.ok_intermediate", "c18.encap_frag.err_size_buffer", "c18.encap_frag.err_pdu_length", "c18.encap.compared_although_substitution_was_possible"],
+            _ => &[],
+        }
+    }
     fn components_real(&self) -> &'static [&'static str] {
         &["Encapsulator::{encap,encap_ext,encap_frag,setters,reset_last_label,clone}", "encap_preview", "encap_frag_preview", "Extension::new", "DefaultCrc (behind RecordingCrc)"]
     }
@@ -146,6 +152,7 @@ impl Scenario for TxSim {
                         // C18 (needs the parsed packet; computed below) -- keep prev
                         let em = Emitted { call: Call::Encap, pdu: &pdu, ptype, label: lab, fid, exts: &[], ctx: None, before: &before, after: &buf, res: &res };
                         let (v6, parsed) = mon::check_c06(&em);
+                        st.inc(mon::c18_cell(Call::Encap, &prev, &res, parsed.as_ref(), sub_possible));
                         if let Some(v) = mon::check_c18(Call::Encap, &prev, &res, parsed.as_ref(), sub_possible, ptype, buf_len, len) {
                             report!(v);
                         }
@@ -295,6 +302,7 @@ impl Scenario for TxSim {
                     }
                     let em = Emitted { call: Call::EncapFrag, pdu: &pdu, ptype: 0, label: Lab::ReUse, fid: ctx.frag_id(), exts: &[], ctx: Some(ctx), before: &before, after: &buf, res: &res };
                     let (v6, parsed) = if pos <= pdu.len() { mon::check_c06(&em) } else { (None, None) };
+                    st.inc(mon::c18_cell(Call::EncapFrag, &prev, &res, parsed.as_ref(), false));
                     if let Some(v) = mon::check_c18(Call::EncapFrag, &prev, &res, parsed.as_ref(), false, 0x0800, buf_len, pdu.len()) {
                         report!(v);
                     }
